@@ -459,7 +459,7 @@ func TestC21(t *testing.T) {
 		"steps: omitted, the smallest giving <= 300 elements, that plus 0..6, type max / |min|, the exact distance or a divisor of it, distance ±1, multiples, random; short ranges ending exactly at the type's max/min), many ranges per script. "+
 		"Oracle: the sequence start + k·step not beyond end computed in ℤ; `for x in r` must yield exactly it without error, the start/end/step fields must be as given (default step ±1), and contains(x) for x in "+
 		"{end, end±1, start, start±1, end+step, start-step, type bounds ±1, 0, ±1, -start, members and their neighbours, random} must equal membership and never fail. Constructions that must fail (zero step, wrong direction, "+
-		"descending default step for unsigned types) are classified and not executed. 8-bit types: in the thorough tier all (start, end) pairs with 4 step choices (omitted, ±3, ±7, ±max). "+
+		"descending default step for unsigned types) are classified and not executed. 8-bit types: in the thorough tier all (start, end) pairs with 3 step choices (omitted, ±3, ±max). "+
 		"Non-trivial: end within |step| of a type bound, or the step does not divide end-start. Distinct by (type, start, end, step, engine); every contains call is an evaluation.")
 	k := &c21{rec: rec, t: t}
 
@@ -480,7 +480,7 @@ func TestC21(t *testing.T) {
 		return
 	}
 
-	perType := evid.N(90, 700)
+	perType := evid.N(90, 500)
 	batch := 40
 	for _, ty := range intTypes {
 		r := evid.Rand(int64(evid.Hash("C21", ty.Name) % 1000003))
@@ -541,7 +541,7 @@ func TestC21(t *testing.T) {
 				var ex []rangeSpec
 				for b := lo; b <= hi; b++ {
 					d := b - a
-					for _, st := range []int64{0, 3, 7, hi} { // 0 = omitted (= ±1)
+					for _, st := range []int64{0, 3, hi} { // 0 = omitted (= ±1)
 						s := rangeSpec{Start: big.NewInt(a), End: big.NewInt(b)}
 						if st != 0 {
 							v := st
@@ -571,7 +571,7 @@ func TestC21(t *testing.T) {
 					k.runBatch(ty, ex[i:min(i+200, len(ex))], host.Engines)
 				}
 			}
-			rec.Extra("exhaustive_subspaces", "8-bit element types: every (start, end) pair with step in {omitted (= ±1), ±3, ±7, ±max} (union of the shards)")
+			rec.Extra("exhaustive_subspaces", "8-bit element types: every (start, end) pair with step in {omitted (= ±1), ±3, ±max} (union of the shards)")
 		}
 	}
 	var missing []string
